@@ -13,6 +13,7 @@ import (
 	_ "verif/harness/c07"
 	_ "verif/harness/c08"
 	_ "verif/harness/c13"
+	_ "verif/harness/c14"
 	_ "verif/harness/c15"
 	_ "verif/harness/c18"
 )
